@@ -4,3 +4,4 @@ import AJ.Model.Surgery
 import AJ.Model.Build
 import AJ.Model.Dot
 import AJ.Spec
+import AJ.Props
